@@ -371,6 +371,11 @@ type VC struct {
 	// vacuity after a call: the hypotheses as they were before the callee's contract was assumed
 	PreAsserts []string
 	PreDecls   []string
+	// byte-string lemmas that are quadratic in the number of terms (hash injectivity,
+	// cancellation): added only if the query does not go through without them
+	Pairwise    []string
+	PairwiseInj bool
+	UsedPairwise bool
 }
 
 type ModelVar struct {
